@@ -36,7 +36,8 @@ type Case struct {
 	// Indirect: how the server's settings reach the connection.  0: the Config given to Server();
 	// 1: that Config comes out of GetConfigForClient of an outer Config that has no certificate
 	// and ClientAuth NoClientCert (the returned Config "will be used to handle this connection");
-	// 2: the certificate comes out of GetCertificate, Certificates is empty.
+	// 2: the certificate comes out of GetCertificate, Certificates is empty; 3: both ends run on
+	// Config.Clone() of their Config.
 	Indirect int `json:"indirect,omitempty"`
 }
 
@@ -315,6 +316,9 @@ func check(c Case, r *kit.R) {
 		sc.Certificates = nil
 		sc.GetCertificate = func(*tls.ClientHelloInfo) (*tls.Certificate, error) { return &cert, nil }
 		r.Class("server certificate through GetCertificate")
+	case 3:
+		sc, cc = sc.Clone(), cc.Clone()
+		r.Class("both ends run on Config.Clone()")
 	}
 
 	var hook tlskit.Hook
@@ -516,7 +520,7 @@ func enumerate(full bool, shard, nshards int, yield func(Case) bool) {
 		}
 		c.FlipAt = idx
 		c.Seed = uint64(idx)
-		c.Indirect = idx % 3
+		c.Indirect = idx % 4
 		return yield(c)
 	}
 	times := []int64{0, -h12 - 1, h12 + 1}
@@ -549,7 +553,7 @@ func enumerate(full bool, shard, nshards int, yield func(Case) bool) {
 	}
 }
 
-const ruleMatrix = "scenario matrix: (TLS 1.0-1.3 x key exchange RSA / ECDHE_RSA / DHE_RSA / ECDHE_ECDSA / TLS 1.3 x server key RSA, ECDSA, Ed25519) x server certificate scenario (ok, ok via intermediate, missing intermediate, untrusted root, untrusted root sent along, untrusted root with the trusted root's name, self-signed, corrupted certificate signature, wrong name, wrong private key, corrupted handshake signature, ServerKeyExchange corrupted on the wire) x client clock (inside / before / after the leaf validity) x InsecureSkipVerify x ClientAuthType (5) x client certificate scenario (none, good, via intermediate, missing intermediate, untrusted, same-name root, self-signed, corrupted certificate signature, serverAuth-only EKU, wrong key, corrupted CertificateVerify) x server clock; the server settings reach the connection directly, through GetConfigForClient of a permissive outer Config, or (certificate) through GetCertificate, in rotation. Non-trivial: any scenario other than all-good"
+const ruleMatrix = "scenario matrix: (TLS 1.0-1.3 x key exchange RSA / ECDHE_RSA / DHE_RSA / ECDHE_ECDSA / TLS 1.3 x server key RSA, ECDSA, Ed25519) x server certificate scenario (ok, ok via intermediate, missing intermediate, untrusted root, untrusted root sent along, untrusted root with the trusted root's name, self-signed, corrupted certificate signature, wrong name, wrong private key, corrupted handshake signature, ServerKeyExchange corrupted on the wire) x client clock (inside / before / after the leaf validity) x InsecureSkipVerify x ClientAuthType (5) x client certificate scenario (none, good, via intermediate, missing intermediate, untrusted, same-name root, self-signed, corrupted certificate signature, serverAuth-only EKU, wrong key, corrupted CertificateVerify) x server clock; the server settings reach the connection directly, through GetConfigForClient of a permissive outer Config, (certificate) through GetCertificate, or both ends on Config.Clone(), in rotation. Non-trivial: any scenario other than all-good"
 
 func TestPropMatrix(t *testing.T) {
 	kit.Run(t, kit.Spec[Case]{ID: "C27", Name: "matrix", Check: check,
@@ -611,7 +615,7 @@ func gen(t *rapid.T) Case {
 		}
 		c.FlipAt = rapid.IntRange(0, 4000).Draw(t, "flip")
 		c.Seed = rapid.Uint64().Draw(t, "seed")
-		c.Indirect = rapid.IntRange(0, 2).Draw(t, "indirect")
+		c.Indirect = rapid.IntRange(0, 3).Draw(t, "indirect")
 		if applicable(c) {
 			return c
 		}
